@@ -5,5 +5,6 @@ CONSTANTS Speeds = {0, 1, 2, 3, 9}
 INVARIANT SelectOK
 INVARIANT FromSetsOnly
 INVARIANT NoDowngrade
+INVARIANT UnsealedOnlyIfBoth
 INVARIANT ChoiceOrderFree
 CHECK_DEADLOCK FALSE
